@@ -214,17 +214,15 @@ def exc_matches(raised, handler):
     """does ``except handler`` catch an exception of class ``raised`` (names)?  None = unknown"""
     if handler is None:
         return True
-    names = [handler] if isinstance(handler, str) else handler
+    names = [handler] if isinstance(handler, str) else list(handler)
+    if raised not in EXC_PARENTS and raised != 'BaseException':
+        return True if 'BaseException' in names else None
     cur = raised
-    seen = 0
-    while cur is not None and seen < 10:
+    while cur is not None:
         if cur in names:
             return True
-        cur = EXC_PARENTS.get(cur, 'Exception' if cur not in ('BaseException',) and cur in EXC_PARENTS else None)
-        seen += 1
-    if raised in EXC_PARENTS:
-        return False
-    return None
+        cur = EXC_PARENTS.get(cur)
+    return False
 
 
 class _State:
